@@ -1,7 +1,7 @@
 """E1 — error discipline shared by the properties whose statement is about what an operation
 *reports* (success must mean the steps happened): no Result computed in the functions the property
 is anchored in is dropped without being looked at."""
-from .common import no_result_dropped
+from .common import no_result_dropped, no_crossed_parameters
 
 SCOPES = {
     "C01": ["tough::load_", "tough::schema::verify::"],
@@ -31,3 +31,6 @@ def run(chk, prog, prop):
         chk.rules_live.append("E1")
     n = no_result_dropped(chk, prog, "E1", pre)
     chk.floor("E1", n, 1, "functions in the error-discipline scope of %s" % prop)
+    if "E2" not in chk.rules_live:
+        chk.rules_live.append("E2")
+    no_crossed_parameters(chk, prog, "E2", pre)
